@@ -568,6 +568,104 @@ Section EnergyR.
   Proof. intros Hk. rewrite poly_potential_quadratic. nra. Qed.
 End EnergyR.
 
+(* ---------------------------------------------------------------------------------------- *)
+(* 5b. spring potential: polynomial stiffness and the tendon deadband                          *)
+Section SpringR.
+  Local Open Scope R_scope.
+
+  (* the literal 0.3333333333333333 of util_misc.poly_potential *)
+  Definition c3 : R := 3333333333333333 / 10000000000000000.
+  Lemma c3_third : Rabs (c3 - / 3) <= / 10000000000000000.
+  Proof. unfold c3. rewrite Rabs_left1 by lra. lra. Qed.
+
+  (* poly_potential(k, (a, b), x, 0) = k/2 x^2 + c3 a x^3 + b/4 x^4 on the SIGNED x: the integral from 0 to x of
+     the polynomial spring force k s + a s^2 + b s^3 (with c3 for 1/3) *)
+  Theorem poly_potential_closed_form (k a b x : R) :
+    T_sensor.poly_potential k [a; b] x 0 = / 2 * k * (x * x) + c3 * a * (x * x * x) + / 4 * b * (x * x * x * x).
+  Proof. unfold T_sensor.poly_potential, c3. simpl. sR. unfold vget. simpl. field. Qed.
+  (* ... so it is NOT even: the cubic term follows the sign of the displacement *)
+  Theorem poly_potential_sign_sensitive (k a b x : R) :
+    T_sensor.poly_potential k [a; b] x 0 - T_sensor.poly_potential k [a; b] (- x) 0 = 2 * c3 * a * (x * x * x).
+  Proof. rewrite !poly_potential_closed_form. ring. Qed.
+
+  (* signed displacement of a tendon from its spring deadband [lower, upper] (MuJoCo engine_passive / energyPos) *)
+  Definition deadband_disp (len lower upper : R) : R :=
+    if Rlt_dec upper len then len - upper else if Rlt_dec len lower then len - lower else 0.
+
+  Section Tendon.
+    Variables (w t : Z) (stiff : Z -> Z -> R) (spoly lspring : Z -> Z -> list R) (len : Z -> Z -> R)
+              (energy_out : Z -> list R) (orc : nat -> Z) (n1 n2 n3 : Z).
+    Definition ktendon := T_sensor.k__energy_pos_passive_tendon w t stiff spoly lspring len energy_out orc n1 n2 n3.
+    Definition k_ := stiff (Z.rem w n1) t.
+    Definition sp_ := spoly (Z.rem w n2) t.
+    Definition lo_ := vget (lspring (Z.rem w n3) t) 0.
+    Definition hi_ := vget (lspring (Z.rem w n3) t) 1.
+    Definition no_spring : bool := Reqb k_ 0 && Reqb (vget sp_ 0) 0 && Reqb (vget sp_ 1) 0.
+
+    (* one task of the translated _energy_pos_passive_tendon: nothing without a spring, otherwise it adds the
+       polynomial potential of the SIGNED deadband displacement to energy[w][0] and 0 to energy[w][1] *)
+    Theorem energy_tendon_task_spec :
+      ktendon = if no_spring then []
+                else [mkW "energy_out" [w] KAdd (VV [T_sensor.poly_potential k_ sp_ (deadband_disp (len w t) lo_ hi_) 0; 0])].
+    Proof.
+      unfold ktendon, T_sensor.k__energy_pos_passive_tendon, no_spring, k_, sp_, lo_, hi_, deadband_disp. cbv zeta. sR.
+      destruct (_ && _ && _); [reflexivity|].
+      unfold Rltb. destruct (Rlt_dec _ (len w t)); [reflexivity|]. destruct (Rlt_dec (len w t) _); reflexivity.
+    Qed.
+
+    Theorem energy_tendon_task (e : R * R) :
+      no_spring = false ->
+      energy_run w e ktendon = (fst e + T_sensor.poly_potential k_ sp_ (deadband_disp (len w t) lo_ hi_) 0, snd e + 0).
+    Proof.
+      intros Hn. rewrite energy_tendon_task_spec, Hn. unfold energy_run, energy_apply. simpl. rewrite Z.eqb_refl. reflexivity.
+    Qed.
+  End Tendon.
+
+  (* the three regimes of the displacement *)
+  Theorem deadband_above len lower upper : upper < len -> deadband_disp len lower upper = len - upper.
+  Proof. intros. unfold deadband_disp. destruct Rlt_dec; [reflexivity|lra]. Qed.
+  Theorem deadband_below len lower upper : lower <= upper -> len < lower -> deadband_disp len lower upper = len - lower /\ deadband_disp len lower upper < 0.
+  Proof. intros. unfold deadband_disp. destruct Rlt_dec; [lra|]. destruct Rlt_dec; [split; lra|lra]. Qed.
+  Theorem deadband_inside len lower upper k a b :
+    lower <= len <= upper -> deadband_disp len lower upper = 0 /\ T_sensor.poly_potential k [a; b] (deadband_disp len lower upper) 0 = 0.
+  Proof.
+    intros. assert (E : deadband_disp len lower upper = 0).
+    { unfold deadband_disp. destruct Rlt_dec; [lra|]. destruct Rlt_dec; [lra|reflexivity]. }
+    split; [exact E|]. rewrite E, poly_potential_closed_form. ring.
+  Qed.
+  (* a compressed tendon with a cubic term: the unsigned distance gives a different energy *)
+  Theorem deadband_compressed_differs_from_unsigned len lower upper k a b :
+    lower <= upper -> len < lower -> a <> 0 ->
+    T_sensor.poly_potential k [a; b] (deadband_disp len lower upper) 0 <> T_sensor.poly_potential k [a; b] (Rabs (deadband_disp len lower upper)) 0.
+  Proof.
+    intros Hlu Hl Ha. destruct (deadband_below len lower upper Hlu Hl) as (E & Hneg).
+    rewrite (Rabs_left _ Hneg). set (x := deadband_disp len lower upper) in *.
+    intros Heq. pose proof (poly_potential_sign_sensitive k a b x) as Hs. rewrite Heq in Hs.
+    replace (T_sensor.poly_potential k [a; b] (- x) 0 - T_sensor.poly_potential k [a; b] (- x) 0) with 0 in Hs by ring.
+    assert (x * x * x <> 0) by (repeat apply Rmult_integral_contrapositive_currified; lra).
+    assert (2 * c3 * a <> 0) by (unfold c3; apply Rmult_integral_contrapositive_currified; lra).
+    assert (2 * c3 * a * (x * x * x) <> 0) by (apply Rmult_integral_contrapositive_currified; assumption). lra.
+  Qed.
+
+  (* hinge / slide joint spring: polynomial potential of the signed q - q_spring *)
+  Section Joint.
+    Variables (w j : Z) (qspring : Z -> Z -> R) (jtype jadr : Z -> Z) (stiff : Z -> Z -> R) (spoly : Z -> Z -> list R)
+              (qpos : Z -> Z -> R) (energy_out : Z -> list R) (orc : nat -> Z) (n1 n2 n3 : Z).
+    Theorem energy_joint_hinge_slide_task_spec :
+      (jtype j = 2 \/ jtype j = 3)%Z ->
+      T_sensor.k__energy_pos_passive_joint w j qspring jtype jadr stiff spoly qpos energy_out orc n1 n2 n3
+      = if Reqb (stiff (Z.rem w n1) j) 0 && Reqb (vget (spoly (Z.rem w n2) j) 0) 0 && Reqb (vget (spoly (Z.rem w n2) j) 1) 0 then []
+        else [mkW "energy_out" [w] KAdd
+                (VV [T_sensor.poly_potential (stiff (Z.rem w n1) j) (spoly (Z.rem w n2) j)
+                       (qpos w (jadr j) - qspring (Z.rem w n3) (jadr j)) 0; 0])].
+    Proof.
+      intros Ht. unfold T_sensor.k__energy_pos_passive_joint. cbv zeta. sR.
+      destruct (_ && _ && _); [reflexivity|].
+      destruct Ht as [-> | ->]; reflexivity.
+    Qed.
+  End Joint.
+End SpringR.
+
 Section KineticR.
   Local Open Scope R_scope.
   (* kinetic energy as the tile kernel computes it: 1/2 * sum_i qvel_i * (M qvel)_i *)
